@@ -21,6 +21,10 @@ Rust function (file under /repo/router/src/matching unless said otherwise) ↦ m
 * `RouteDefs::match_route` (mod.rs: base stripping, final `remaining` check) ↦ `stripBase`, `matchRoute`
 * `NestedRoute::generate_routes`, tuple `generate_routes`, `RouteDefs::generate_routes` + the
   base prefix added in nested_router.rs/flat_router.rs ↦ `Route.gen`, `genList`, `flatRoutes`
+* `NestedRoute::ssr_mode(..)`, `SsrMode` and its derived `Ord` (ssr_mode.rs; `StaticRoute::cmp` is
+  always `Equal`, static_routes.rs), and the mode / methods / regenerate part of
+  `NestedRoute::generate_routes` (`if child.ssr_mode > ssr_mode`) ↦ `Mode`, `Mode.rank`, `pickMode`,
+  `RouteM`, `RouteM.genM`, `genMList`, `GenRoute`; the definition tree without the modes ↦ `RouteM.erase`
 * `ExpandOptionals::expand_optionals` (path_segment.rs, the worklist with `pop`) ↦ `firstOpt`,
   `expandLoop`, `expandOptionals`; its recursive specification ↦ `expandSpec`
 * `StaticPath::into_paths` (../static_routes.rs, one value per parameter) ↦ `buildPath`
@@ -791,5 +795,131 @@ def classify (d : Defs) (path : Path) (kind : Kind) : Class :=
     else if anyInnerOptTuple d.tops then .nestedOptionalTuple
     else .unclassified kind
   | .winnerUnknown => .unclassified kind
+
+/-! ## `.ssr_mode(..)`: the modes in the generated table
+
+`NestedRoute::new` sets `SsrMode::default()` = `OutOfOrder` and `methods = {Get}`; `.ssr_mode(m)` (only
+available before `.child(..)`) replaces the mode.  `generate_routes` lists one entry per root-to-leaf
+chain: segments concatenated, methods united, the regeneration fns of the chain's `Static` routes in
+order, and the mode of a chain = `if child.ssr_mode > ssr_mode { child.ssr_mode } else { ssr_mode }`
+with the derived order `OutOfOrder < PartiallyBlocked < InOrder < Async < Static(_)`, two `Static`
+being equal (`StaticRoute::cmp` is constantly `Equal`) — so the parent's `StaticRoute` is kept.
+
+The matcher never looks at the mode, so a definition tree with modes (`RouteM`) is matched as its
+erasure (`RouteM.erase : Route`). -/
+
+/-- `SsrMode`; a `Static` mode carries the identity of its `StaticRoute` (the preorder index of the
+route it was given to) and whether that `StaticRoute` has a regeneration fn -/
+inductive Mode where
+  | outOfOrder | partiallyBlocked | inOrder | async
+  | static (id : Nat) (regen : Bool)
+  deriving Repr, DecidableEq
+
+/-- the derived `Ord` of `SsrMode`: variant order, all `Static(_)` equal -/
+def Mode.rank : Mode → Nat
+  | .outOfOrder => 0
+  | .partiallyBlocked => 1
+  | .inOrder => 2
+  | .async => 3
+  | .static _ _ => 4
+
+/-- `if child.ssr_mode > ssr_mode { child.ssr_mode } else { ssr_mode }` -/
+def pickMode (parent child : Mode) : Mode :=
+  if child.rank > parent.rank then child else parent
+
+/-- `match &ssr_mode { Static(data) => data.regenerate.., _ => None }` as a list -/
+def Mode.ownRegen : Mode → List Nat
+  | .static id true => [id]
+  | _ => []
+
+inductive Method where
+  | get | post | put | delete | patch
+  deriving Repr, DecidableEq
+
+/-- `HashSet::extend`, as a duplicate-free list -/
+def unionMethods (a b : List Method) : List Method :=
+  a ++ b.filter fun m => !a.contains m
+
+/-- `GeneratedRouteData` -/
+structure GenRoute where
+  segments : List FSeg
+  mode : Mode
+  methods : List Method
+  regen : List Nat
+  deriving Repr, DecidableEq
+
+/-- a route definition with its `.ssr_mode(..)` -/
+inductive RouteM where
+  | mk (segs : Seg) (mode : Mode) (children : List RouteM)
+  deriving Repr
+
+mutual
+/-- the definition tree the matcher sees -/
+def RouteM.erase : RouteM → Route
+  | .mk segs _ children => .mk segs (eraseList children)
+def eraseList : List RouteM → List Route
+  | [] => []
+  | c :: cs => c.erase :: eraseList cs
+end
+
+/-- one entry of a child's table seen from the parent (the body of the `flat_map` in
+`NestedRoute::generate_routes`) -/
+def combine (segs : List FSeg) (mode : Mode) (c : GenRoute) : GenRoute :=
+  { segments := segs ++ c.segments
+    mode := pickMode mode c.mode
+    methods := unionMethods [.get] c.methods
+    regen := mode.ownRegen ++ c.regen }
+
+def combineAll (segs : List FSeg) (mode : Mode) : List GenRoute → List GenRoute
+  | [] => []
+  | c :: cs => combine segs mode c :: combineAll segs mode cs
+
+mutual
+/-- `NestedRoute::generate_routes` with all four fields of `GeneratedRouteData` -/
+def RouteM.genM : RouteM → List GenRoute
+  | .mk segs mode children =>
+    if children.isEmpty then [⟨segs.gen, mode, [.get], mode.ownRegen⟩]
+    else combineAll segs.gen mode (genMList children)
+def genMList : List RouteM → List GenRoute
+  | [] => []
+  | c :: cs => c.genM ++ genMList cs
+end
+
+structure DefsM where
+  base : Option Path
+  tops : List RouteM
+  deriving Repr
+
+def DefsM.erase (d : DefsM) : Defs := ⟨d.base, eraseList d.tops⟩
+
+/-- the registered table with its modes: base as a leading static segment of every entry -/
+def flatRoutesM (d : DefsM) : List GenRoute :=
+  (genMList d.tops).map fun g => { g with segments := withBase d.base g.segments }
+
+mutual
+/-- the modes along every root-to-leaf chain, in table order (specification side) -/
+def RouteM.trails : RouteM → List (List Mode)
+  | .mk _ mode children =>
+    if children.isEmpty then [[mode]] else consAll mode (trailsList children)
+def trailsList : List RouteM → List (List Mode)
+  | [] => []
+  | c :: cs => c.trails ++ trailsList cs
+def consAll (m : Mode) : List (List Mode) → List (List Mode)
+  | [] => []
+  | t :: ts => (m :: t) :: consAll m ts
+end
+
+def maxRank : List Mode → Nat
+  | [] => 0
+  | m :: ms => Nat.max m.rank (maxRank ms)
+
+/-- the first mode of the chain that is as strict as any (root first) -/
+def firstStrictest (t : List Mode) : Mode :=
+  (t.find? fun m => m.rank == maxRank t).getD .outOfOrder
+
+/-- the regeneration fns of a chain -/
+def trailRegen : List Mode → List Nat
+  | [] => []
+  | m :: ms => m.ownRegen ++ trailRegen ms
 
 end Leptos.Router
